@@ -12,8 +12,15 @@ Known findings kept outside the theorem (see known_findings.json): the `no cells
 reached with more than D vertices left (F8a), and a hull-vertex removal can return a Level-3-valid
 but non-convex, non-Delaunay complex (F8b).  Both are states the model's `unguarded` parameter is
 free to produce; the K3 tie reports them.
+ * star-removal section (end of file, Model/StarRemoval.lean): the CELL-SET edit of the removal
+   (drop the star of `v`, add fill cells on the link vertices — fan retriangulation or the inverse
+   k=1 move), the dual of the cavity section of Props/C02.lean — membership, count, which vertices
+   survive (`starFill_link_vertex_lost`), facet degrees, the inverse relation with cavity insertion,
+   and the executable step check `starRemovalProblem` (sound and complete).  Which fill is chosen
+   (geometry) stays a parameter.
 -/
 import DelaunayModel.Model.Remove
+import DelaunayModel.Lemmas.StarRemovalAux
 namespace DM.C06
 
 open DM.Remove
@@ -112,5 +119,627 @@ example : removeVertex (S := Nat)
 example : (removeVertex (S := Nat)
     { verts := fun _ => [(7, [], 0)], unguarded := fun s _ => .ok (s + 1, 3),
       hasCells := fun _ => true, level3 := fun _ => false } 0 7).2 = 0 := by rfl
+
+end DM.C06
+
+/-! ## The star removal (`Triangulation::remove_vertex`: fan fill / inverse k=1) on the abstract complex
+
+Model: Model/StarRemoval.lean — drop the cells containing `v` (`starOf cells v`), add the cells
+`fill` (`starFill`).  The dual of the cavity step of Props/C02.lean.  All theorems hold for every cell
+list (no bound on size or dimension).  Hypotheses are stated where they are used: cells are sorted
+duplicate-free lists (`Pairwise (· < ·)`), `cells.Nodup`, the fill cells do not contain `v` and are
+not kept cells.
+
+ * §s1 `starFill_mem`, `starFill_vertex_gone`, `starFill_other_cells_kept`
+ * §s2 `starFill_length(_add)`, `starFill_nodup`, `starFill_count`
+ * §s3 `starFill_vertex_kept_iff`, `starFill_link_vertex_lost` (the isolated-vertex hazard)
+ * §s4 facet degrees: `starFill_facet_degree(_add,_link)`, `starFill_facet_degree_le_two(_link)`
+ * §s5 inverse of the cavity insertion: `starFill_cavity_inverse`, `cavity_starFill_inverse`
+ * §s6 the executable step check: `starRemovalProblem_none_iff`, `_none_spec`, `_none_sound`,
+       `_complete`, `_complete_interior`, `starRemoval_facet_degree_le_two`
+ * §s7 non-vacuity by `decide`
+Helper lemmas: Lemmas/StarRemovalAux.lean.  Core only.
+-/
+namespace DM.C06
+open DM
+
+/-! ### §s1 membership -/
+
+theorem starFill_mem (cells fill : List (List Nat)) (v : Nat) (x : List Nat) :
+    x ∈ starFill cells v fill ↔ (x ∈ cells ∧ v ∉ x) ∨ x ∈ fill := by
+  rw [starFill_eq, List.mem_append, mem_starKept]
+
+/-- the removed vertex is in no cell afterwards (if the fill does not bring it back) -/
+theorem starFill_vertex_gone (cells : List (List Nat)) {fill : List (List Nat)} {v : Nat}
+    (hvF : ∀ c ∈ fill, v ∉ c) : ∀ x ∈ starFill cells v fill, v ∉ x := by
+  intro x hx
+  rcases (starFill_mem cells fill v x).1 hx with h | h
+  · exact h.2
+  · exact hvF x h
+
+theorem starFill_vertex_not_in_vertexSet (cells : List (List Nat)) {fill : List (List Nat)} {v : Nat}
+    (hvF : ∀ c ∈ fill, v ∉ c) : v ∉ vertexSet (starFill cells v fill) := by
+  intro h
+  obtain ⟨x, hx, hv⟩ := mem_vertexSet.1 h
+  exact starFill_vertex_gone cells hvF x hx hv
+
+/-- every cell not containing `v` is still there -/
+theorem starFill_other_cells_kept (cells fill : List (List Nat)) {v : Nat} {c : List Nat}
+    (hc : c ∈ cells) (hv : v ∉ c) : c ∈ starFill cells v fill :=
+  (starFill_mem cells fill v c).2 (Or.inl ⟨hc, hv⟩)
+
+/-- the cells that disappear are star cells -/
+theorem starFill_removed_in_star (cells fill : List (List Nat)) {v : Nat} {c : List Nat}
+    (hc : c ∈ cells) (hgone : c ∉ starFill cells v fill) : c ∈ starOf cells v := by
+  refine mem_starOf.2 ⟨hc, ?_⟩
+  apply Classical.byContradiction
+  intro hv
+  exact hgone (starFill_other_cells_kept cells fill hc hv)
+
+/-! ### §s2 cell count -/
+
+/-- additive form (no truncated subtraction); no hypothesis needed -/
+theorem starFill_length_add (cells fill : List (List Nat)) (v : Nat) :
+    (starFill cells v fill).length + (starOf cells v).length = cells.length + fill.length := by
+  rw [starFill_eq, List.length_append, length_star_split cells v]
+  omega
+
+theorem starFill_length (cells fill : List (List Nat)) (v : Nat) :
+    (starFill cells v fill).length = cells.length - (starOf cells v).length + fill.length := by
+  have h1 := starFill_length_add cells fill v
+  have h2 := length_star_split cells v
+  omega
+
+theorem starFill_nodup {cells fill : List (List Nat)} {v : Nat} (hnd : cells.Nodup)
+    (hF : fill.Nodup) (hdis : ∀ c ∈ fill, c ∈ cells → v ∈ c) : (starFill cells v fill).Nodup := by
+  rw [starFill_eq]
+  refine List.nodup_append.2 ⟨starKept_nodup hnd v, hF, ?_⟩
+  rintro a ha b hb rfl
+  exact (mem_starKept.1 ha).2 (hdis a hb (mem_starKept.1 ha).1)
+
+/-- the cell count changes by exactly `|fill| - |star|`, and no cell is duplicated if the fill is
+duplicate-free and disjoint from the kept cells -/
+theorem starFill_count {cells fill : List (List Nat)} {v : Nat} (hnd : cells.Nodup)
+    (hF : fill.Nodup) (hdis : ∀ c ∈ fill, c ∈ cells → v ∈ c) :
+    (starFill cells v fill).length = cells.length - (starOf cells v).length + fill.length ∧
+    (starFill cells v fill).Nodup :=
+  ⟨starFill_length cells fill v, starFill_nodup hnd hF hdis⟩
+
+/-! ### §s3 which vertices survive -/
+
+theorem starFill_vertex_kept_iff (cells fill : List (List Nat)) (u v : Nat) :
+    (∃ x ∈ starFill cells v fill, u ∈ x) ↔
+      (∃ c ∈ cells, v ∉ c ∧ u ∈ c) ∨ (∃ c ∈ fill, u ∈ c) := by
+  constructor
+  · rintro ⟨x, hx, hu⟩
+    rcases (starFill_mem cells fill v x).1 hx with ⟨h1, h2⟩ | h
+    · exact Or.inl ⟨x, h1, h2, hu⟩
+    · exact Or.inr ⟨x, h, hu⟩
+  · rintro (⟨c, h1, h2, hu⟩ | ⟨c, h, hu⟩)
+    · exact ⟨c, starFill_other_cells_kept cells fill h1 h2, hu⟩
+    · exact ⟨c, (starFill_mem cells fill v c).2 (Or.inr h), hu⟩
+
+/-- **isolated vertex after removal** (the hazard of a bad fan): a vertex `u` all of whose cells are
+star cells of `v` and that is in no fill cell is in NO cell afterwards -/
+theorem starFill_link_vertex_lost (cells fill : List (List Nat)) {u v : Nat}
+    (hstar : ∀ c ∈ cells, u ∈ c → v ∈ c) (hF : ∀ c ∈ fill, u ∉ c) :
+    ∀ x ∈ starFill cells v fill, u ∉ x := by
+  intro x hx hu
+  rcases (starFill_vertex_kept_iff cells fill u v).1 ⟨x, hx, hu⟩ with ⟨c, h1, h2, h3⟩ | ⟨c, h, h3⟩
+  · exact h2 (hstar c h1 h3)
+  · exact hF c h h3
+
+/-- the same, through `vertexSet` -/
+theorem starFill_link_vertex_not_in_vertexSet (cells fill : List (List Nat)) {u v : Nat}
+    (hstar : ∀ c ∈ cells, u ∈ c → v ∈ c) (hF : ∀ c ∈ fill, u ∉ c) :
+    u ∉ vertexSet (starFill cells v fill) := by
+  intro h
+  obtain ⟨x, hx, hu⟩ := mem_vertexSet.1 h
+  exact starFill_link_vertex_lost cells fill hstar hF x hx hu
+
+/-- conversely a vertex with a cell outside the star stays -/
+theorem starFill_vertex_survives (cells fill : List (List Nat)) {u v : Nat} {c : List Nat}
+    (hc : c ∈ cells) (hv : v ∉ c) (hu : u ∈ c) : u ∈ vertexSet (starFill cells v fill) :=
+  mem_vertexSet.2 ⟨c, starFill_other_cells_kept cells fill hc hv, hu⟩
+
+/-! ### §s4 facet degrees -/
+
+/-- additive form, every facet, no hypothesis: the degree drops by the degree inside the star and
+rises by the degree inside the fill -/
+theorem starFill_facet_degree_add (cells fill : List (List Nat)) (v : Nat) (f : List Nat) :
+    facetCount (starFill cells v fill) f + facetCount (starOf cells v) f =
+      facetCount cells f + facetCount fill f := by
+  rw [starFill_eq, facetCount_append, facetCount_star_split cells v f]
+  omega
+
+theorem starFill_facet_degree (cells fill : List (List Nat)) (v : Nat) (f : List Nat) :
+    facetCount (starFill cells v fill) f =
+      facetCount cells f - facetCount (starOf cells v) f + facetCount fill f := by
+  have h1 := starFill_facet_degree_add cells fill v f
+  have h2 := facetCount_star_le cells v f
+  omega
+
+/-- facets not containing `v`, sorted duplicate-free cells: the degree drops by one iff the facet is a
+link facet (dual of `cavity_facet_degree_with`) -/
+theorem starFill_facet_degree_link {cells : List (List Nat)} (fill : List (List Nat)) {v : Nat}
+    (hnd : cells.Nodup) (hs : ∀ c ∈ cells, c.Pairwise (· < ·)) {f : List Nat} (hvf : v ∉ f) :
+    facetCount (starFill cells v fill) f =
+      facetCount cells f - (if f ∈ linkOf cells v then 1 else 0) + facetCount fill f := by
+  rw [starFill_facet_degree, facetCount_star_link hnd hs hvf]
+
+/-- a facet containing `v` is a facet of no cell afterwards -/
+theorem starFill_facet_through_v {cells fill : List (List Nat)} {v : Nat}
+    (hvF : ∀ c ∈ fill, v ∉ c) {f : List Nat} (hvf : v ∈ f) :
+    facetCount (starFill cells v fill) f = 0 :=
+  facetCount_eq_zero_of_fresh (starFill_vertex_gone cells hvF) hvf
+
+/-- **degree ≤ 2 is preserved** under the boundary-matching condition on the fill:
+every facet of a fill cell has degree 1 in the fill, or degree 2 in the fill and is a facet of no kept
+cell (`hint`); every boundary (degree 1) facet of the fill is a facet of a star cell or a facet of no
+kept cell (`hbd`).  Every facet, no sortedness / `Nodup` hypothesis. -/
+theorem starFill_facet_degree_le_two {cells fill : List (List Nat)} {v : Nat}
+    (h2 : ∀ f, facetCount cells f ≤ 2)
+    (hint : ∀ f ∈ cellFacets fill, facetCount fill f = 1 ∨
+      (facetCount fill f = 2 ∧ facetCount (starKept cells v) f = 0))
+    (hbd : ∀ f ∈ cavityBoundary fill, 1 ≤ facetCount (starOf cells v) f ∨
+      facetCount (starKept cells v) f = 0) (f : List Nat) :
+    facetCount (starFill cells v fill) f ≤ 2 := by
+  have hadd := starFill_facet_degree_add cells fill v f
+  have hsplit := facetCount_star_split cells v f
+  have hc := h2 f
+  by_cases hm : f ∈ cellFacets fill
+  · rcases hint f hm with h1 | ⟨h1, h0⟩
+    · rcases hbd f (mem_cavityBoundary.2 h1) with hb | hb
+      · omega
+      · omega
+    · omega
+  · have : facetCount fill f = 0 := by
+      have h0 : ¬ 0 < facetCount fill f := fun h => hm (facetCount_pos_iff.1 h)
+      omega
+    omega
+
+/-- the same with the conditions as `starRemovalProblem` checks them: interior facets of the fill are
+facets of no cell before, boundary facets of the fill are link facets or facets of no cell before -/
+theorem starFill_facet_degree_le_two_link {cells fill : List (List Nat)} {v : Nat}
+    (h2 : ∀ f, facetCount cells f ≤ 2)
+    (hint : ∀ f ∈ cellFacets fill, facetCount fill f = 1 ∨
+      (facetCount fill f = 2 ∧ facetCount cells f = 0))
+    (hbd : ∀ f ∈ cavityBoundary fill, f ∈ starLinkFacets cells v ∨ facetCount cells f = 0)
+    (f : List Nat) : facetCount (starFill cells v fill) f ≤ 2 := by
+  refine starFill_facet_degree_le_two h2 ?_ ?_ f
+  · intro g hg
+    rcases hint g hg with h | ⟨h, h0⟩
+    · exact Or.inl h
+    · have := facetCount_kept_le cells v g
+      exact Or.inr ⟨h, by omega⟩
+  · intro g hg
+    rcases hbd g hg with h | h0
+    · have := (mem_starLinkFacets.1 h).1
+      exact Or.inl (by omega)
+    · have := facetCount_kept_le cells v g
+      exact Or.inr (by omega)
+
+/-! ### §s5 inverse of the cavity insertion -/
+
+/-- removing the freshly inserted vertex with the old cavity cells as fill restores the cell LIST up
+to the position of the cavity cells -/
+theorem starFill_cavityInsertWith_eq {cells : List (List Nat)} (C F : List (List Nat)) {v : Nat}
+    (hfresh : ∀ c ∈ cells, v ∉ c) :
+    starFill (cavityInsertWith cells C F v) v C = cells.filter (fun c => !C.contains c) ++ C := by
+  unfold starFill cavityInsertWith
+  rw [List.filter_append]
+  have e1 : (cells.filter (fun c => !C.contains c)).filter (fun c => !c.contains v) =
+      cells.filter (fun c => !C.contains c) := by
+    rw [List.filter_eq_self]
+    intro a ha
+    simpa using hfresh a (List.mem_filter.1 ha).1
+  have e2 : (F.map (coneCell v)).filter (fun c => !c.contains v) = [] := by
+    rw [List.filter_eq_nil_iff]
+    intro a ha
+    obtain ⟨f, _, rfl⟩ := List.mem_map.1 ha
+    simpa using self_mem_coneCell v f
+  rw [e1, e2, List.append_nil]
+
+/-- **removal undoes insertion** (any coned facets `F`, in particular the hull extension): as sets -/
+theorem starFill_cavityInsertWith_inverse {cells C : List (List Nat)} (F : List (List Nat)) {v : Nat}
+    (hsub : ∀ c ∈ C, c ∈ cells) (hfresh : ∀ c ∈ cells, v ∉ c) (x : List Nat) :
+    x ∈ starFill (cavityInsertWith cells C F v) v C ↔ x ∈ cells := by
+  rw [starFill_cavityInsertWith_eq C F hfresh, List.mem_append, List.mem_filter]
+  constructor
+  · rintro (h | h)
+    · exact h.1
+    · exact hsub x h
+  · intro h
+    by_cases hm : x ∈ C
+    · exact Or.inr hm
+    · exact Or.inl ⟨h, by simpa using hm⟩
+
+/-- interior instance -/
+theorem starFill_cavity_inverse {cells C : List (List Nat)} {v : Nat}
+    (hsub : ∀ c ∈ C, c ∈ cells) (hfresh : ∀ c ∈ cells, v ∉ c) (x : List Nat) :
+    x ∈ starFill (cavityInsert cells C v) v C ↔ x ∈ cells :=
+  starFill_cavityInsertWith_inverse (cavityBoundary C) hsub hfresh x
+
+/-- with duplicate-free lists: as a permutation (so every count — cells, facets — is restored) -/
+theorem starFill_cavity_inverse_perm {cells C : List (List Nat)} (F : List (List Nat)) {v : Nat}
+    (hnd : cells.Nodup) (hC : C.Nodup) (hsub : ∀ c ∈ C, c ∈ cells) (hfresh : ∀ c ∈ cells, v ∉ c) :
+    (starFill (cavityInsertWith cells C F v) v C).Perm cells := by
+  rw [starFill_cavityInsertWith_eq C F hfresh]
+  exact filter_not_contains_append_perm hnd hC hsub
+
+/-- **insertion undoes removal**: re-inserting `v` with the fill as conflict region and the old link
+as coned facets gives the old cells back, as sets (the fill cells must not be cells before) -/
+theorem cavity_starFill_inverse {cells fill : List (List Nat)} {v : Nat}
+    (hs : ∀ c ∈ cells, c.Pairwise (· < ·)) (hdis : ∀ c ∈ fill, c ∉ cells) (x : List Nat) :
+    x ∈ cavityInsertWith (starFill cells v fill) fill (linkOf cells v) v ↔ x ∈ cells := by
+  unfold cavityInsertWith
+  rw [List.mem_append, List.mem_filter, List.mem_map, starFill_mem]
+  constructor
+  · rintro (⟨h1 | h1, h2⟩ | ⟨f, hf, rfl⟩)
+    · exact h1.1
+    · simp [h1] at h2
+    · obtain ⟨c, hc, hv, rfl⟩ := mem_linkOf.1 hf
+      rw [coneCell_without (hs c hc) hv]
+      exact hc
+  · intro hx
+    by_cases hv : v ∈ x
+    · exact Or.inr ⟨without x v, mem_linkOf.2 ⟨x, hx, hv, rfl⟩, coneCell_without (hs x hx) hv⟩
+    · have hn : x ∉ fill := fun h => hdis x h hx
+      exact Or.inl ⟨Or.inl ⟨hx, hv⟩, by simpa using hn⟩
+
+/-- interior instance: if the boundary of the fill is the link of `v` (as sets), the interior cavity
+insertion of `v` with the fill as conflict region gives the old cells back -/
+theorem cavity_starFill_inverse_interior {cells fill : List (List Nat)} {v : Nat}
+    (hs : ∀ c ∈ cells, c.Pairwise (· < ·)) (hdis : ∀ c ∈ fill, c ∉ cells)
+    (hB : ∀ f, f ∈ cavityBoundary fill ↔ f ∈ linkOf cells v) (x : List Nat) :
+    x ∈ cavityInsert (starFill cells v fill) fill v ↔ x ∈ cells := by
+  rw [← cavity_starFill_inverse hs hdis x]
+  unfold cavityInsert cavityInsertWith
+  simp only [List.mem_append, List.mem_map]
+  constructor
+  · rintro (h | ⟨f, hf, rfl⟩)
+    · exact Or.inl h
+    · exact Or.inr ⟨f, (hB f).1 hf, rfl⟩
+  · rintro (h | ⟨f, hf, rfl⟩)
+    · exact Or.inl h
+    · exact Or.inr ⟨f, (hB f).2 hf, rfl⟩
+
+/-! ### §s6 the executable step check -/
+
+/-- what `starRemovalProblem pre post v = none` checks, in `Prop` form; `R = stepRemoved pre post`
+(`pre \ post`), `N = stepCreated pre post` (`post \ pre`) -/
+structure StarRemovalChecks (pre post : List (List Nat)) (v : Nat) : Prop where
+  star_ne : starOf pre v ≠ []
+  gone : ∀ c ∈ post, v ∉ c
+  removed_star : ∀ c ∈ stepRemoved pre post, c ∈ starOf pre v
+  star_removed : ∀ c ∈ starOf pre v, c ∈ stepRemoved pre post
+  link_verts : ∀ c ∈ stepCreated pre post, ∀ u ∈ c, u ≠ v ∧ u ∈ starVerts pre v
+  fill_nodup : (stepCreated pre post).Nodup
+  fill_facets : ∀ f ∈ cellFacets (stepCreated pre post),
+    facetCount (stepCreated pre post) f = 1 ∨
+      (facetCount (stepCreated pre post) f = 2 ∧ facetCount pre f = 0)
+  fill_boundary : ∀ f ∈ cavityBoundary (stepCreated pre post),
+    f ∈ starLinkFacets pre v ∨ (starOnHull pre v = true ∧ facetCount pre f = 0)
+  link_covered : ∀ f ∈ starLinkFacets pre v, f ∈ cavityBoundary (stepCreated pre post) ∨
+    (starOnHull pre v = true ∧ facetCount (stepCreated pre post) f = 0)
+  post_sub : ∀ x ∈ post, x ∈ starFill pre v (stepCreated pre post)
+  sub_post : ∀ x ∈ starFill pre v (stepCreated pre post), x ∈ post
+
+theorem not_bnot_true {b : Bool} (h : ¬ ((!b) = true)) : b = true := by
+  cases b <;> simp_all
+
+/-- one link of the `if … then some reason else …` chain (`split` is too slow on ten links) -/
+theorem ite_some_eq_none {c : Prop} [Decidable c] {s : String} {r : Option String} :
+    (if c then some s else r) = none ↔ ¬ c ∧ r = none := by
+  by_cases h : c <;> simp [h]
+
+theorem starRemovalProblem_none_iff (pre post : List (List Nat)) (v : Nat) :
+    starRemovalProblem pre post v = none ↔ StarRemovalChecks pre post v := by
+  unfold starRemovalProblem
+  dsimp only
+  constructor
+  · intro h
+    rw [ite_some_eq_none] at h
+    obtain ⟨h1, h⟩ := h
+    rw [ite_some_eq_none] at h
+    obtain ⟨h2, h⟩ := h
+    rw [ite_some_eq_none] at h
+    obtain ⟨h3, h⟩ := h
+    rw [ite_some_eq_none] at h
+    obtain ⟨h4, h⟩ := h
+    rw [ite_some_eq_none] at h
+    obtain ⟨h5, h⟩ := h
+    rw [ite_some_eq_none] at h
+    obtain ⟨h6, h⟩ := h
+    rw [ite_some_eq_none] at h
+    obtain ⟨h7, h⟩ := h
+    rw [ite_some_eq_none] at h
+    obtain ⟨h8, h⟩ := h
+    rw [ite_some_eq_none] at h
+    obtain ⟨h9, h⟩ := h
+    rw [ite_some_eq_none] at h
+    obtain ⟨h10, h⟩ := h
+    have h3 := List.all_eq_true.1 (not_bnot_true h3)
+    have h4 := List.all_eq_true.1 (not_bnot_true h4)
+    have h5 := List.all_eq_true.1 (not_bnot_true h5)
+    have h6 := (nodupB_iff _).1 (not_bnot_true h6)
+    have h7 := List.all_eq_true.1 (not_bnot_true h7)
+    have h8 := List.all_eq_true.1 (not_bnot_true h8)
+    have h9 := List.all_eq_true.1 (not_bnot_true h9)
+    have h10 := Bool.and_eq_true_iff.1 (not_bnot_true h10)
+    have h10a := List.all_eq_true.1 h10.1
+    have h10b := List.all_eq_true.1 h10.2
+    refine ⟨by simpa using h1, by simpa using h2,
+      fun c hc => List.contains_iff_mem.1 (h3 c hc), fun c hc => List.contains_iff_mem.1 (h4 c hc),
+      ?_, h6, ?_, ?_, ?_, fun x hx => List.contains_iff_mem.1 (h10a x hx),
+      fun x hx => List.contains_iff_mem.1 (h10b x hx)⟩
+    · intro c hc u hu
+      have := List.all_eq_true.1 (h5 c hc) u hu
+      simpa using this
+    · intro f hf
+      have := h7 f hf
+      unfold facetCount
+      simpa using this
+    · intro f hf
+      have := h8 f hf
+      unfold facetCount
+      simpa using this
+    · intro f hf
+      have := h9 f hf
+      unfold facetCount
+      simpa using this
+  · intro k
+    have b3 : (stepRemoved pre post).all (starOf pre v).contains = true :=
+      List.all_eq_true.2 (fun c hc => List.contains_iff_mem.2 (k.removed_star c hc))
+    have b4 : (starOf pre v).all (stepRemoved pre post).contains = true :=
+      List.all_eq_true.2 (fun c hc => List.contains_iff_mem.2 (k.star_removed c hc))
+    have b5 : (stepCreated pre post).all
+        (fun c => c.all (fun u => u != v && (starVerts pre v).contains u)) = true :=
+      List.all_eq_true.2 (fun c hc => List.all_eq_true.2 (fun u hu => by
+        simpa using k.link_verts c hc u hu))
+    have b6 : nodupB (stepCreated pre post) = true := (nodupB_iff _).2 k.fill_nodup
+    have b7 : (cellFacets (stepCreated pre post)).all
+        (fun f => (cellFacets (stepCreated pre post)).count f == 1 ||
+          ((cellFacets (stepCreated pre post)).count f == 2 && (cellFacets pre).count f == 0))
+        = true :=
+      List.all_eq_true.2 (fun f hf => by simpa [facetCount] using k.fill_facets f hf)
+    have b8 : (cavityBoundary (stepCreated pre post)).all
+        (fun f => (starLinkFacets pre v).contains f ||
+          (starOnHull pre v && (cellFacets pre).count f == 0)) = true :=
+      List.all_eq_true.2 (fun f hf => by simpa [facetCount] using k.fill_boundary f hf)
+    have b9 : (starLinkFacets pre v).all
+        (fun f => (cavityBoundary (stepCreated pre post)).contains f ||
+          (starOnHull pre v && (cellFacets (stepCreated pre post)).count f == 0)) = true :=
+      List.all_eq_true.2 (fun f hf => by simpa [facetCount] using k.link_covered f hf)
+    have b10a : post.all (starFill pre v (stepCreated pre post)).contains = true :=
+      List.all_eq_true.2 (fun x hx => List.contains_iff_mem.2 (k.post_sub x hx))
+    have b10b : (starFill pre v (stepCreated pre post)).all post.contains = true :=
+      List.all_eq_true.2 (fun x hx => List.contains_iff_mem.2 (k.sub_post x hx))
+    rw [if_neg (by simpa using k.star_ne), if_neg (by simpa using k.gone), b3, b4, b5, b6, b7, b8,
+      b9, b10a, b10b]
+    rfl
+
+/-- what a legal star removal from `pre` to `post` with fill `fill` is -/
+structure StarRemovalSpec (pre post : List (List Nat)) (v : Nat) (fill : List (List Nat)) :
+    Prop where
+  star_ne : starOf pre v ≠ []
+  fill_avoids : ∀ c ∈ fill, v ∉ c
+  fill_new : ∀ c ∈ fill, c ∉ pre
+  fill_nodup : fill.Nodup
+  same_cells : ∀ x, x ∈ post ↔ x ∈ starFill pre v fill
+  gone : ∀ c ∈ post, v ∉ c
+  removed_star : ∀ c ∈ pre, c ∉ post → v ∈ c
+  link_verts : ∀ c ∈ fill, ∀ u ∈ c, u ≠ v ∧ ∃ s ∈ starOf pre v, u ∈ s
+  fill_facets : ∀ f ∈ cellFacets fill,
+    facetCount fill f = 1 ∨ (facetCount fill f = 2 ∧ facetCount pre f = 0)
+  fill_boundary : ∀ f ∈ cavityBoundary fill,
+    f ∈ starLinkFacets pre v ∨ (starOnHull pre v = true ∧ facetCount pre f = 0)
+  link_covered : ∀ f ∈ starLinkFacets pre v,
+    f ∈ cavityBoundary fill ∨ (starOnHull pre v = true ∧ facetCount fill f = 0)
+
+/-- **soundness of the executable check**, with the reconstructed fill `post \ pre` -/
+theorem starRemovalProblem_none_spec {pre post : List (List Nat)} {v : Nat}
+    (h : starRemovalProblem pre post v = none) :
+    StarRemovalSpec pre post v (stepCreated pre post) := by
+  have k := (starRemovalProblem_none_iff pre post v).1 h
+  refine ⟨k.star_ne, fun c hc => k.gone c (mem_stepCreated_iff.1 hc).1,
+    fun c hc => (mem_stepCreated_iff.1 hc).2, k.fill_nodup, fun x => ⟨k.post_sub x, k.sub_post x⟩,
+    k.gone, ?_, ?_, k.fill_facets, k.fill_boundary, k.link_covered⟩
+  · intro c hc hn
+    exact (mem_starOf.1 (k.removed_star c (mem_stepRemoved_iff.2 ⟨hc, hn⟩))).2
+  · intro c hc u hu
+    exact ⟨(k.link_verts c hc u hu).1, mem_starVerts.1 (k.link_verts c hc u hu).2⟩
+
+/-- **soundness of the executable check**: a step that passes is a star removal — there is a `fill`
+such that `post` is, as a set of cells, `starFill pre v fill`; no fill cell contains `v`, every
+removed cell contained `v`, the fill uses link vertices only, and the boundary of the fill matches
+the link (exactly, if `v` is not a hull vertex) -/
+theorem starRemovalProblem_none_sound {pre post : List (List Nat)} {v : Nat}
+    (h : starRemovalProblem pre post v = none) :
+    ∃ fill, (∀ c ∈ fill, v ∉ c) ∧ (∀ x, x ∈ post ↔ x ∈ starFill pre v fill) ∧
+      (∀ c ∈ pre, c ∉ post → v ∈ c) ∧ (∀ c ∈ post, v ∉ c) ∧ starOf pre v ≠ [] ∧
+      (∀ c ∈ fill, ∀ u ∈ c, u ≠ v ∧ ∃ s ∈ starOf pre v, u ∈ s) ∧ fill.Nodup ∧
+      (∀ c ∈ fill, c ∉ pre) ∧
+      (∀ f ∈ cellFacets fill,
+        facetCount fill f = 1 ∨ (facetCount fill f = 2 ∧ facetCount pre f = 0)) ∧
+      (∀ f ∈ cavityBoundary fill,
+        f ∈ starLinkFacets pre v ∨ (starOnHull pre v = true ∧ facetCount pre f = 0)) ∧
+      (∀ f ∈ starLinkFacets pre v,
+        f ∈ cavityBoundary fill ∨ (starOnHull pre v = true ∧ facetCount fill f = 0)) := by
+  have k := starRemovalProblem_none_spec h
+  exact ⟨_, k.fill_avoids, k.same_cells, k.removed_star, k.gone, k.star_ne, k.link_verts,
+    k.fill_nodup, k.fill_new, k.fill_facets, k.fill_boundary, k.link_covered⟩
+
+/-- for an interior vertex (no facet through `v` on the hull) a step that passes has
+`∂(fill) = link(v)` as sets -/
+theorem starRemovalProblem_none_interior {pre post : List (List Nat)} {v : Nat}
+    (h : starRemovalProblem pre post v = none) (hint : starOnHull pre v = false) (f : List Nat) :
+    f ∈ cavityBoundary (stepCreated pre post) ↔ f ∈ starLinkFacets pre v := by
+  have k := starRemovalProblem_none_spec h
+  constructor
+  · intro hf
+    rcases k.fill_boundary f hf with h1 | ⟨h1, _⟩
+    · exact h1
+    · rw [hint] at h1
+      cases h1
+  · intro hf
+    rcases k.link_covered f hf with h1 | ⟨h1, _⟩
+    · exact h1
+    · rw [hint] at h1
+      cases h1
+
+/-- end to end: a step that passes the check keeps every facet at degree ≤ 2 -/
+theorem starRemoval_facet_degree_le_two {pre post : List (List Nat)} {v : Nat}
+    (h : starRemovalProblem pre post v = none) (hpre : pre.Nodup) (hpost : post.Nodup)
+    (h2 : ∀ f, facetCount pre f ≤ 2) (f : List Nat) : facetCount post f ≤ 2 := by
+  have k := starRemovalProblem_none_spec h
+  have hnd : (starFill pre v (stepCreated pre post)).Nodup :=
+    starFill_nodup hpre k.fill_nodup (fun c hc hp => absurd hp (k.fill_new c hc))
+  have hperm : post.Perm (starFill pre v (stepCreated pre post)) :=
+    (List.perm_ext_iff_of_nodup hpost hnd).2 k.same_cells
+  rw [facetCount_perm hperm f]
+  refine starFill_facet_degree_le_two_link h2 k.fill_facets ?_ f
+  intro g hg
+  rcases k.fill_boundary g hg with h1 | ⟨_, h0⟩
+  · exact Or.inl h1
+  · exact Or.inr h0
+
+/-- **completeness of the executable check**: every star removal whose fill avoids `v`, is new,
+duplicate-free, uses star vertices only and satisfies the boundary-matching conditions passes the
+check.  Together with `starRemovalProblem_none_spec` the check accepts exactly the legal steps. -/
+theorem starRemovalProblem_complete {pre fill : List (List Nat)} {v : Nat}
+    (hne : starOf pre v ≠ []) (hvF : ∀ c ∈ fill, v ∉ c) (hdis : ∀ c ∈ fill, c ∉ pre)
+    (hF : fill.Nodup) (hverts : ∀ c ∈ fill, ∀ u ∈ c, ∃ s ∈ starOf pre v, u ∈ s)
+    (hfac : ∀ f ∈ cellFacets fill,
+      facetCount fill f = 1 ∨ (facetCount fill f = 2 ∧ facetCount pre f = 0))
+    (hbd : ∀ f ∈ cavityBoundary fill,
+      f ∈ starLinkFacets pre v ∨ (starOnHull pre v = true ∧ facetCount pre f = 0))
+    (hcov : ∀ f ∈ starLinkFacets pre v,
+      f ∈ cavityBoundary fill ∨ (starOnHull pre v = true ∧ facetCount fill f = 0)) :
+    starRemovalProblem pre (starFill pre v fill) v = none := by
+  have e1 := stepRemoved_starFill (pre := pre) hvF
+  have e2 := stepCreated_starFill (pre := pre) v hdis
+  rw [starRemovalProblem_none_iff]
+  refine ⟨hne, starFill_vertex_gone pre hvF, ?_, ?_, ?_, ?_, ?_, ?_, ?_, ?_, ?_⟩
+  · rw [e1]
+    exact fun c hc => hc
+  · rw [e1]
+    exact fun c hc => hc
+  · rw [e2]
+    intro c hc u hu
+    exact ⟨fun e => hvF c hc (e ▸ hu), mem_starVerts.2 (hverts c hc u hu)⟩
+  · rw [e2]
+    exact hF
+  · rw [e2]
+    exact hfac
+  · rw [e2]
+    exact hbd
+  · rw [e2]
+    exact hcov
+  · rw [e2]
+    exact fun x hx => hx
+  · rw [e2]
+    exact fun x hx => hx
+
+/-- interior instance, with the link given as `linkOf pre v`: every removal of a vertex of a sorted
+duplicate-free complex whose fill is new, on link vertices, with every facet in at most two fill
+cells, interior fill facets new, and `∂(fill) = link(v)` passes the check -/
+theorem starRemovalProblem_complete_interior {pre fill : List (List Nat)} {v : Nat}
+    (hnd : pre.Nodup) (hs : ∀ c ∈ pre, c.Pairwise (· < ·))
+    (hne : starOf pre v ≠ []) (hvF : ∀ c ∈ fill, v ∉ c) (hdis : ∀ c ∈ fill, c ∉ pre)
+    (hF : fill.Nodup) (hverts : ∀ c ∈ fill, ∀ u ∈ c, ∃ s ∈ starOf pre v, u ∈ s)
+    (hfac : ∀ f ∈ cellFacets fill,
+      facetCount fill f = 1 ∨ (facetCount fill f = 2 ∧ facetCount pre f = 0))
+    (hB : ∀ f, f ∈ cavityBoundary fill ↔ f ∈ linkOf pre v) :
+    starRemovalProblem pre (starFill pre v fill) v = none :=
+  starRemovalProblem_complete hne hvF hdis hF hverts hfac
+    (fun f hf => Or.inl ((mem_starLinkFacets_iff_link hnd hs).2 ((hB f).1 hf)))
+    (fun f hf => Or.inl ((hB f).2 ((mem_starLinkFacets_iff_link hnd hs).1 hf)))
+
+/-! ### §s7 non-vacuity -/
+
+/-- 2-D, inverse k=1 move: the interior vertex `9` with the star of three triangles inside
+`[0,1,2]`; the fill is the single triangle; link = boundary of the fill; not a hull vertex -/
+theorem ex_star_k1 :
+    starFill [[0, 1, 9], [1, 2, 9], [0, 2, 9]] 9 [[0, 1, 2]] = [[0, 1, 2]] ∧
+    starRemovalProblem [[0, 1, 9], [1, 2, 9], [0, 2, 9]] [[0, 1, 2]] 9 = none ∧
+    starLinkFacets [[0, 1, 9], [1, 2, 9], [0, 2, 9]] 9 = [[0, 1], [1, 2], [0, 2]] ∧
+    linkOf [[0, 1, 9], [1, 2, 9], [0, 2, 9]] 9 = [[0, 1], [1, 2], [0, 2]] ∧
+    starOnHull [[0, 1, 9], [1, 2, 9], [0, 2, 9]] 9 = false := by
+  decide
+
+/-- 2-D, interior vertex of degree 4 with two kept neighbours: fan of two triangles from `0` -/
+theorem ex_star_deg4 :
+    starRemovalProblem [[0, 1, 9], [1, 2, 9], [2, 3, 9], [0, 3, 9]] [[0, 1, 2], [0, 2, 3]] 9 = none ∧
+    starRemovalProblem [[0, 1, 9], [1, 2, 9], [2, 3, 9], [0, 3, 9], [0, 1, 5], [1, 2, 6]]
+      [[0, 1, 5], [0, 1, 2], [1, 2, 6], [0, 2, 3]] 9 = none ∧
+    starFill [[0, 1, 9], [1, 2, 9], [2, 3, 9], [0, 3, 9], [0, 1, 5], [1, 2, 6]] 9
+      [[0, 1, 2], [0, 2, 3]] = [[0, 1, 5], [1, 2, 6], [0, 1, 2], [0, 2, 3]] := by
+  decide
+
+/-- hull vertex: `3` removed from `[[0,1,2],[1,2,3]]`, empty fill, the link edge `[1,2]` becomes a
+hull edge; a hull vertex with a reflex link vertex `1`: the fill `[0,1,2]` has the NEW hull edge
+`[0,2]` (accepted), and the empty fill is accepted too (legal complex, not convex: geometry is outside
+the model); the last cell removed -/
+theorem ex_star_hull :
+    starFill [[0, 1, 2], [1, 2, 3]] 3 [] = [[0, 1, 2]] ∧
+    starRemovalProblem [[0, 1, 2], [1, 2, 3]] [[0, 1, 2]] 3 = none ∧
+    starOnHull [[0, 1, 2], [1, 2, 3]] 3 = true ∧
+    starRemovalProblem [[0, 1, 9], [1, 2, 9], [0, 1, 3], [1, 2, 3]] [[0, 1, 3], [1, 2, 3], [0, 1, 2]] 9
+      = none ∧
+    starRemovalProblem [[0, 1, 9], [1, 2, 9], [0, 1, 3], [1, 2, 3]] [[0, 1, 3], [1, 2, 3]] 9 = none ∧
+    starRemovalProblem [[0, 1, 2]] [] 2 = none := by
+  decide
+
+/-- 3-D inverse k=1 move: `9` inside the tetrahedron `[0,1,2,3]` -/
+theorem ex_star_3d :
+    starRemovalProblem [[0, 1, 2, 9], [0, 1, 3, 9], [0, 2, 3, 9], [1, 2, 3, 9], [0, 1, 2, 4]]
+      [[0, 1, 2, 4], [0, 1, 2, 3]] 9 = none := by
+  decide
+
+/-- negative: a fill on a foreign vertex (`7` is not a link vertex of `9`); a fill that leaves link
+facets of an interior vertex uncovered (nothing filled — with and without a kept neighbour; one
+triangle of the two of the fan: its edge `[0,2]` is not a link facet and `[2,3]`, `[0,3]` stay
+uncovered) -/
+theorem ex_star_bad_fill :
+    (starRemovalProblem [[0, 1, 9], [1, 2, 9], [0, 2, 9]] [[0, 1, 7], [1, 2, 7], [0, 2, 7]] 9).isSome
+      = true ∧
+    (starRemovalProblem [[0, 1, 9], [1, 2, 9], [0, 2, 9]] [] 9).isSome = true ∧
+    (starRemovalProblem [[0, 1, 9], [1, 2, 9], [2, 3, 9], [0, 3, 9]] [[0, 1, 2]] 9).isSome = true ∧
+    (starRemovalProblem [[0, 1, 9], [1, 2, 9], [0, 2, 9], [0, 1, 5]] [[0, 1, 5]] 9).isSome = true := by
+  decide
+
+/-- negative: `post` still contains `v`; a non-star cell (`[0,1,5]`) disappears; `v` was in no cell;
+the hull vertex `9` with link path `0-1-2-3`: two fill cells on the link edge `[0,1]` (it would get
+degree 3 with a kept cell, and has degree 2 in the fill without being new); a fill cell `[0,1,2]`
+glued onto the interior edge `[0,2]` of the kept cells `[0,2,5]`, `[0,2,6]` (degree 3) -/
+theorem ex_star_bad_other :
+    (starRemovalProblem [[0, 1, 9], [1, 2, 9], [0, 2, 9]] [[0, 1, 2], [0, 2, 9]] 9).isSome = true ∧
+    (starRemovalProblem [[0, 1, 9], [1, 2, 9], [0, 2, 9], [0, 1, 5]] [[0, 1, 2]] 9).isSome = true ∧
+    (starRemovalProblem [[0, 1, 2]] [[0, 1, 2]] 9).isSome = true ∧
+    (starRemovalProblem [[0, 1, 9], [1, 2, 9], [2, 3, 9]] [[0, 1, 2], [0, 1, 3]] 9).isSome = true ∧
+    (starRemovalProblem [[0, 1, 9], [1, 2, 9], [0, 2, 5], [0, 2, 6]]
+      [[0, 2, 5], [0, 2, 6], [0, 1, 2]] 9).isSome = true := by
+  decide
+
+/-- the isolated-vertex hazard, obtained from the general theorem: a (bad) fill that forgets the link
+vertex `3` of `9`, whose only cells are star cells -/
+example : ∀ x ∈ starFill [[0, 1, 9], [1, 2, 9], [2, 3, 9], [0, 3, 9]] 9 [[0, 1, 2]], 3 ∉ x :=
+  starFill_link_vertex_lost _ _ (by decide) (by decide)
+
+/-- removal undoes insertion on the example of Props/C02 (`ex_cavity_2d`) -/
+example : starFill (cavityInsert [[0, 1, 2], [1, 2, 3]] [[0, 1, 2], [1, 2, 3]] 4) 4
+    [[0, 1, 2], [1, 2, 3]] = [[0, 1, 2], [1, 2, 3]] ∧
+    cavityInsert (starFill [[0, 2, 4], [0, 1, 4], [2, 3, 4], [1, 3, 4]] 4 [[0, 1, 2], [1, 2, 3]])
+      [[0, 1, 2], [1, 2, 3]] 4 = [[0, 2, 4], [0, 1, 4], [2, 3, 4], [1, 3, 4]] := by
+  decide
+
+/-- the degree formula on an example: the link edge `[0,1]` keeps degree 2 (one star cell out, one
+fill cell in), the new interior edge `[0,2]` of the fan gets degree 2 -/
+example : facetCount (starFill [[0, 1, 9], [1, 2, 9], [2, 3, 9], [0, 3, 9], [0, 1, 5]] 9
+      [[0, 1, 2], [0, 2, 3]]) [0, 1] = 2 ∧
+    facetCount (starFill [[0, 1, 9], [1, 2, 9], [2, 3, 9], [0, 3, 9], [0, 1, 5]] 9
+      [[0, 1, 2], [0, 2, 3]]) [0, 2] = 2 := by
+  decide
 
 end DM.C06
